@@ -45,13 +45,17 @@ HAND = [
      "Max1": {"type": "string", "maxLength": 1},
      "Min2Max3": {"type": "string", "minLength": 2, "maxLength": 3},
      "Min1": {"type": "string", "minLength": 1},
-     "Max0": {"type": "string", "maxLength": 0}}),
+     "Max0": {"type": "string", "maxLength": 0},
+     "Exact2": {"type": "string", "minLength": 2, "maxLength": 2}, "Exact1": {"type": "string", "minLength": 1, "maxLength": 1}}),
   {"Max1": [("valid", "é"), ("valid", "\U0001F600"), ("valid", ""), ("valid", "a"), ("valid", "日"),
             ("length", "éé"), ("length", "ab"), ("length", "\U0001F600a"), ("length", "é"), ("type", 1)],
    "Min2Max3": [("valid", "éé"), ("valid", "日本語"), ("valid", "\U0001F600\U0001F600"),
                 ("length", "é"), ("length", "\U0001F600"), ("length", "éééé"), ("length", "abcd")],
    "Min1": [("valid", "\u0301"), ("length", "")],
    "Max0": [("valid", ""), ("length", "a"), ("length", "é")],
+   # both bounds equal: bytes and characters disagree on every multi-byte string
+   "Exact2": [("valid", "ab"), ("valid", "éé"), ("valid", "日本"), ("valid", "\U0001F600a"), ("length", "é"), ("length", "a"), ("length", "abc"), ("length", "\U0001F600"), ("length", "")],
+   "Exact1": [("valid", "é"), ("valid", "\U0001F600"), ("valid", "a"), ("length", ""), ("length", "ab"), ("length", "éé")],
    "#": [("valid", {"m": "\U0001F600"}), ("valid", {"m": "é", "n": "ééé"}),
          ("length", {"m": "éé"}), ("length", {"m": "a", "n": "\U0001F600"})]}),
  ("patterns", dict(_obj({"p": _ref("Lower"), "q": {"type": "array", "items": _ref("Digits3")}}, ["p"]), title="Patterns", definitions={
